@@ -21,6 +21,12 @@ type SCase struct {
 	Ch   int
 	Slot int
 	Body []SStmt
+	// recv: how the clause is written — 0 `case v := <-c: sK = v`, 1 `case sK = <-c:`, 2 `case sK, ok = <-c:`,
+	// 3 `case v, k := <-c: sK = v`; Ok is the status slot of the two-value forms (else -1); Expr writes the channel
+	// as the expression cs[N] instead of the identifier cN (the clause forms of F08-1, F08-3, F08-5, all repaired)
+	Form int
+	Ok   int
+	Expr bool
 }
 
 type SStmt struct {
@@ -109,7 +115,11 @@ func (f *flat) stmts(body []SStmt) {
 				case "dflt":
 					cs = append(cs, fmt.Sprintf("(dflt %d)", target))
 				default:
-					cs = append(cs, fmt.Sprintf("(%s %d %d %d)", c.Dir, c.Ch, c.Slot, target))
+					if c.Dir == "recv" && (c.Form == 2 || c.Form == 3) {
+						cs = append(cs, fmt.Sprintf("(recv2 %d %d %d %d)", c.Ch, c.Slot, c.Ok, target))
+					} else {
+						cs = append(cs, fmt.Sprintf("(%s %d %d %d)", c.Dir, c.Ch, c.Slot, target))
+					}
 				}
 				f.stmts(c.Body)
 				jumps = append(jumps, f.emit(""))
@@ -189,8 +199,20 @@ func (p *MProg) goStmts(b *strings.Builder, body []SStmt, ind string) {
 			for _, c := range s.Cases {
 				switch c.Dir {
 				case "recv":
-					// not `case sK = <-cN:` (F08-3, F08-5)
-					fmt.Fprintf(b, "%scase v := <-c%d:\n%s\ts%d = v\n", ind, c.Ch, ind, c.Slot)
+					ch := fmt.Sprintf("c%d", c.Ch)
+					if c.Expr {
+						ch = fmt.Sprintf("cs[%d]", c.Ch)
+					}
+					switch c.Form {
+					case 1:
+						fmt.Fprintf(b, "%scase s%d = <-%s:\n", ind, c.Slot, ch)
+					case 2:
+						fmt.Fprintf(b, "%scase s%d, ok = <-%s:\n%s\ts%d = b2i(ok)\n", ind, c.Slot, ch, ind, c.Ok)
+					case 3:
+						fmt.Fprintf(b, "%scase v, k := <-%s:\n%s\ts%d = v\n%s\ts%d = b2i(k)\n", ind, ch, ind, c.Slot, ind, c.Ok)
+					default:
+						fmt.Fprintf(b, "%scase v := <-%s:\n%s\ts%d = v\n", ind, ch, ind, c.Slot)
+					}
 				case "send":
 					fmt.Fprintf(b, "%scase c%d <- s%d:\n", ind, c.Ch, c.Slot)
 				default:
@@ -374,6 +396,20 @@ func (g *mgen) simple(o *occ, inLoop bool, depth int) []SStmt {
 	return []SStmt{{Op: "addc", A: g.data(), B: g.data(), V: 1}}
 }
 
+// form picks how a receive clause is written.
+func (g *mgen) form(c SCase) SCase {
+	c.Ok = -1
+	if c.Dir != "recv" {
+		return c
+	}
+	c.Form = g.rng.Intn(4)
+	c.Expr = g.rng.Intn(3) == 0
+	if c.Form >= 2 {
+		c.Ok = 1
+	}
+	return c
+}
+
 // sel builds a select with exactly one ready communication (or none and a default).
 func (g *mgen) sel(o *occ) (SStmt, bool) {
 	r := g.rng
@@ -415,7 +451,11 @@ func (g *mgen) sel(o *occ) (SStmt, bool) {
 	if !useDefault {
 		c := ready[r.Intn(len(ready))]
 		slot := g.data()
-		cases = append(cases, SCase{Dir: c.dir, Ch: c.ch, Slot: slot, Body: append(body(), SStmt{Op: "print", A: slot})})
+		sc := g.form(SCase{Dir: c.dir, Ch: c.ch, Slot: slot, Body: append(body(), SStmt{Op: "print", A: slot})})
+		if sc.Ok >= 0 {
+			sc.Body = append(sc.Body, SStmt{Op: "print", A: sc.Ok})
+		}
+		cases = append(cases, sc)
 		if c.dir == "recv" {
 			if o.n[c.ch] > 0 {
 				o.n[c.ch]--
@@ -433,10 +473,14 @@ func (g *mgen) sel(o *occ) (SStmt, bool) {
 		nb = 1
 	}
 	for k := 0; k < nb && k < len(blocked); k++ {
-		cases = append(cases, SCase{Dir: blocked[k].dir, Ch: blocked[k].ch, Slot: g.data(), Body: body()})
+		bc := g.form(SCase{Dir: blocked[k].dir, Ch: blocked[k].ch, Slot: g.data(), Body: body()})
+		if bc.Dir == "recv" && (bc.Form == 1 || bc.Form == 2) && r.Intn(3) == 0 {
+			bc.Body = nil // an assignment clause with an empty body
+		}
+		cases = append(cases, bc)
 	}
 	if useDefault {
-		cases = append(cases, SCase{Dir: "dflt", Body: body()})
+		cases = append(cases, SCase{Dir: "dflt", Body: body(), Ok: -1})
 	}
 	r.Shuffle(len(cases), func(i, j int) { cases[i], cases[j] = cases[j], cases[i] })
 	// Go requires default to be unique (it is) and allows it anywhere
